@@ -23,7 +23,10 @@ RULE = (
     "superset); an evaluation = one entry of a returned array at a point of the singular grid (+-0.0, +-1, +-2, 0.5, "
     "float(pi/2); vector origin / one zero entry; atoms over the affine inner function 2x-1; norms of shifted vectors) checked for finiteness, for equality with the reference where "
     "the entry is regular, for the stated value (0 / +-1e16) on the bare atoms, and for entry-wise agreement of "
-    "the vectorised and the element-by-element build.  Non-trivial = case with >=1 singular entry observed."
+    "the vectorised and the element-by-element build; plus a complete GENERATED layer on the same singular grid (quick: "
+    "unary chains <= 2, every unary function of every binary operation of two leaves, every binary operation of "
+    "operands that are leaves or unary functions of a variable; thorough: every tree of depth <= 2 over 24 operators "
+    "and leaves x, y, 2, -1, and unary chains <= 3), checked for finiteness and unchanged regular entries.  Non-trivial = case with >=1 singular entry observed."
 )
 ASSUMPTIONS = [
     "entry-level regularity from the reference jets (an entry is regular when no non-differentiable elementary "
@@ -117,9 +120,38 @@ def all_cases():
         yield {"id": ("vpow", k, "2rows"), "rows": (R, vec), "twin": (R, gen)}
 
 
+GL = (X, Y, ("c", 2), ("c", -1))
+
+
+def generated(tier):
+    """Complete generated layer: every composition below, evaluated on the singular grid (x in +-0, +-1, +-2, 0.5,
+    pi/2; y in 0.75, -1.5): all unary chains of length <= 2 (<= 3 thorough) over x, every unary function of every
+    binary operation of two leaves, every binary operation of two operands that are leaves or unary functions of x / y
+    (thorough: every tree of depth <= 2 over 24 operators and the leaves x, y, 2, -1)."""
+    from mc.alg import UNARY
+
+    if tier == "thorough":
+        yield from L.layer_A(GL, 2)
+        yield from L.layer_C(3)
+        return
+    yield from L.layer_C(2)
+    d1b = [("bin", op, a, b) for op in L.BINOPS for a in GL for b in GL]
+    for f in UNARY:
+        for a in d1b:
+            yield ("un", f, a)
+    ops = list(GL) + [("un", f, v) for f in UNARY for v in (X, Y)]
+    for op in L.BINOPS:
+        for a in ops:
+            for b in ops:
+                yield ("bin", op, a, b)
+
+
+NG = 32
+
+
 def shards(tier, seed):
     n = len(list(all_cases()))
-    return list(range(n))
+    return list(range(n)) + [("G", i, NG) for i in range(NG)]
 
 
 def points_for(names):
@@ -149,20 +181,20 @@ def callables(b, rows, vn, fails, rep):
     out = {}
     try:
         jf = autodiff.compile_jacobian(es, V)
-        out["jacobian"] = (jf.__name__, lambda x: np.asarray(jf(x), dtype=float))
+        out["jacobian"] = (jf.__name__, lambda x, f=InPlace(jf): np.asarray(f(x), dtype=float))
     except Exception as ex:
         fails.add("exception:compile_jacobian:" + type(ex).__name__, msg=str(ex)[:200])
     target = es[-1]
     try:
         gf = compiler.compile_gradient(target, V)
-        out["gradient"] = (gf.__name__, lambda x: np.asarray(gf(x), dtype=float).reshape(-1))
+        out["gradient"] = (gf.__name__, lambda x, f=InPlace(gf): np.asarray(f(x), dtype=float).reshape(-1))
         ce = compiler.CompiledExpression(target, V)
-        out["ce.gradient"] = ("CompiledExpression", lambda x: np.asarray(ce.gradient(x), dtype=float).reshape(-1))
+        out["ce.gradient"] = ("CompiledExpression", lambda x, f=InPlace(ce.gradient): np.asarray(f(x), dtype=float).reshape(-1))
     except Exception as ex:
         fails.add("exception:compile_gradient:" + type(ex).__name__, msg=str(ex)[:200])
     try:
         hf = autodiff.compile_hessian(target, V)
-        out["hessian"] = (hf.__name__, lambda x: np.asarray(hf(x), dtype=float))
+        out["hessian"] = (hf.__name__, lambda x, f=InPlace(hf): np.asarray(f(x), dtype=float))
     except Exception as ex:
         fails.add("exception:compile_hessian:" + type(ex).__name__, msg=str(ex)[:200])
     if rep:
@@ -278,6 +310,18 @@ def check_case(case, tier, seed, rep=None, want=None):
 
 def explore(item, tier, seed):
     rep = Report()
+    if isinstance(item, tuple):
+        for j, r in enumerate(L.shard(generated(tier), item[1], item[2])):
+            case = {"id": ("generated", r), "rows": (r,)}
+            fs = check_case(case, tier, seed, rep)
+            seen = set()
+            for kind, d in fs:
+                if kind not in seen:
+                    seen.add(kind)
+                    rep.violation(kind, {"index": None, "id": case["id"]}, **d)
+            if j % 499 == 0:
+                rep.sample({"case": "generated", "rows": (r,)})
+        return rep
     case = list(all_cases())[item]
     fs = check_case(case, tier, seed, rep)
     seen = set()
@@ -296,6 +340,9 @@ def culprit(v):
 
 def replay(art):
     cid = detuple(art["culprit"]["id"])
+    if cid and cid[0] == "generated":
+        fs = check_case({"id": cid, "rows": (cid[1],)}, "quick", 0, None, want=art["culprit"]["kind"])
+        return [{"kind": k, "detail": d} for k, d in fs]
     for case in all_cases():
         if case["id"] == cid or detuple(list(case["id"])) == cid:
             fs = check_case(case, "quick", 0, None, want=art["culprit"]["kind"])
